@@ -172,6 +172,10 @@ fn check_fit(ty: usize, x: AmountT, note: &str) -> Verdict {
             fail!("{}: panicked: {}", note, p)
         }
     };
+    if r.1 == NOT_A_CONST {
+        // declared in /repo but not in the reference table (see C09)
+        return Verdict::Discard("result unit is not in the reference table");
+    }
     if r.1 >= t.n_units || !m.eligible.contains(&r.1) {
         fail!("{}: result {} is not in an eligible unit", note, c.describe_q(ty, r));
     }
@@ -263,7 +267,8 @@ pub fn check(case: &Case) -> Verdict {
     let rm = &c.models[o.r];
     // 1. a unit of the result quantity
     if r.1 >= rt.n_units {
-        fail!("{}: the result's unit is not a unit of the result quantity", note);
+        // declared in /repo but not in the reference table (see C09)
+        return Verdict::Discard("result unit is not in the reference table");
     }
     let rrv = rt.r.as_ref().unwrap();
     // 2. reference units in, reference unit out
